@@ -505,7 +505,8 @@ class Algebra:
         bin = reduce(operator.or_, (self.canon2bin.get(f'e{i}', 2 ** self.d) for i in indices))
         canon_blade = self.bin2canon.get(bin, False) if len(set(indices)) == len(indices) else False
         if canon_blade:
-            swaps, *_ = _swap_blades(basis_blade, '', target=canon_blade)
+            # Without the leading 'e', which is also the label of generator 14.
+            swaps, *_ = _swap_blades(basis_blade[1:], '', target=canon_blade[1:])
             return canon_blade, swaps
         return None, 0
 
